@@ -68,6 +68,8 @@ class Prop(PropBase):
             data = (g.standard_normal((case["L"],) + shape) + 1j * g.standard_normal((case["L"],) + shape))
         else:
             data = g.standard_normal((case["L"],) + shape)
+            if case["seed"] % 5 == 1:
+                data = data * [1e-9, 1e-12][case["seed"] % 2]     # weak signals: interpolation is linear
             if case["cls"] in ("Signal", "RadioSignal") and case["seed"] % 4 == 0:
                 # classes without a dtype requirement also hold integer samples (raw counts); interpolated values are not integers
                 data = np.round(data * 20).astype([np.int16, np.int64, np.int8, np.uint8][(case["seed"] // 4) % 4])
